@@ -5,7 +5,7 @@ V = os.path.dirname(os.path.dirname(os.path.abspath(__file__)))
 props = [json.loads(l) for l in open(os.path.join(V, "properties.jsonl"))]
 T = {
  "C01": ("history vs byte-array model at the client boundary + backend bytes after every request", "exploration", "Seeded WRITE/READ/SETATTR(size)/GETATTR/CREATE histories through HandleCall on every attr-cache TTL x transfer size; each reply and the backend bytes are compared with a byte-array model. Exploration is the right level: the input space is unbounded and the oracle is exact on every sampled history."),
- "C02": ("lockstep differential across cache configurations + POSIX tree model + backend snapshots", "exploration", "The same seeded namespace history runs on 4 (quick) / 8 (thorough) servers differing only in attr/dir/negative caching; replies must be identical and agree with a model tree, and every backend tree must equal the model after each request."),
+ "C02": ("lockstep differential across cache configurations + POSIX tree model + backend snapshots", "exploration", "The same seeded namespace history runs on 4 (quick) / 8 (thorough) servers differing only in attr/dir/negative caching; replies must be identical and agree with a model tree, and every backend tree must equal the model after each request. Fault injection: each changing backend call of each namespace mutation is failed once; a failure reply must leave the tree unchanged."),
  "C03": ("exhaustive create matrix + seeded histories, backend snapshots around every CREATE", "exploration", "All create modes x existing object kinds x sattr3 combinations x verifier x caller are executed (matrix exhaustive) and judged against the RFC 1813 3.3.8 outcome table with full-content snapshots; plus random create/write/retransmit histories."),
  "C04": ("attribute ledger over every decoded reply + backend lstat", "exploration", "Every fattr3 / entry fileid in every reply of seeded histories (incl. SETATTR with every mode-word class) is attributed to the path it describes, compared with the backend's lstat and with the majority of earlier reports for the unchanged path."),
  "C05": ("ghost handle table checked after every issue", "exploration", "Direct FileHandleMap histories for max in {1..64} with pools up to 20x max, and handler-level histories with a small limit where every returned handle is used at once."),
